@@ -9,7 +9,7 @@ import sys
 sys.path.insert(0, '.')
 from vf import core
 core.build_vmon()
-for cfg in ("std", "phf", "nostd"):
+for cfg in ("std", "phf", "nostd", "nostdphf"):
     core.build_deps(cfg)
 print("setup ok")
 PY
